@@ -224,6 +224,8 @@ type tlsFlagConn struct{ net.Conn }
 func (tlsFlagConn) IsTLS() bool { return true }
 
 type Client struct {
+	lastCont bool // the last response contained a continuation request
+	lastOK   bool // the last response contained a tagged OK
 	conn   net.Conn // client side
 	paused bool
 	pumpWG sync.WaitGroup
@@ -457,6 +459,9 @@ func init() {
 		if !ok {
 			return Obs{"error": "no conn"}
 		}
+		if op.boolean("only_if_ok") && !cl.lastOK {
+			return Obs{"skipped": true}
+		}
 		if err := cl.startTLS(); err != nil {
 			return Obs{"error": err.Error()}
 		}
@@ -510,6 +515,15 @@ func opSend(w *World, op Op) Obs {
 	if !ok {
 		return Obs{"error": "no conn"}
 	}
+	// only_if_cont: skip this send unless the previous response on this
+	// connection contained a continuation request ("+ ..."): a client must not
+	// send a synchronising literal / SASL response after a refusal.
+	if op.boolean("only_if_cont") && !cl.lastCont {
+		return Obs{"skipped": true}
+	}
+	if op.boolean("only_if_ok") && !cl.lastOK {
+		return Obs{"skipped": true}
+	}
 	data := op.str("data")
 	if data != "" {
 		_ = cl.conn.SetWriteDeadline(time.Now().Add(3 * time.Second))
@@ -542,6 +556,16 @@ func opSend(w *World, op Op) Obs {
 		pred = func([]byte, bool) bool { return true }
 	}
 	b, how := cl.readUntil(pred, timeout)
+	cl.lastCont, cl.lastOK = false, false
+	lines, _ := imapLines(b)
+	for _, l := range lines {
+		if bytes.HasPrefix(l, []byte("+ ")) || bytes.Equal(l, []byte("+\r\n")) {
+			cl.lastCont = true
+		}
+		if f := bytes.Fields(l); len(f) >= 2 && string(f[0]) != "*" && string(f[0]) != "+" && string(f[1]) == "OK" {
+			cl.lastOK = true
+		}
+	}
 	return Obs{"recv": b2s(b), "how": how}
 }
 
